@@ -169,7 +169,7 @@ def run_tlc(ctx, module, constants, extra, name=None, workers=1, timeout=900, xm
     with open(cfg, "w") as f:
         f.write(cfg_text(constants, extra))
     meta = os.path.join(ctx.scratch, "meta." + name)
-    cmd = ["java", "-Xss256m", "-Xmx" + xmx, "-XX:+UseParallelGC", "-cp", JAR, "tlc2.TLC",
+    cmd = ["java", "-Xss256m", "-Xmx" + xmx, "-XX:+UseParallelGC", "-Djava.io.tmpdir=" + ctx.scratch, "-cp", JAR, "tlc2.TLC",
            "-workers", str(workers), "-metadir", meta, "-config", cfg, "-noGenerateSpecTE"]
     if coverage:
         cmd += ["-coverage", "1"]
@@ -349,17 +349,63 @@ def apalache(ctx, module, inv, length=0, timeout=600, negative=False):
     ctx.log("apalache %s/%s: %s" % (module, inv, "counterexample found as required" if negative else "holds for all integers"))
 
 
-def trace_api(ctx, cats, n=600, corpus=True, timeout=1800):
+def trace_parse(ctx, tr, meta, nlines, timeout=1800, shards=4):
+    """Trace_Parse.tla: the nud / led steps logged by the real parser for every Compile of the trace against the
+    parser machine ParserM.tla, sharded over the lines modulo the number of shards (the machine is deterministic: one behaviour per shard)."""
+    from concurrent.futures import ThreadPoolExecutor
+    ranges = list(range(shards))
+    base = len(ctx.tlc_runs)
+
+    def one(k):
+        return run_tlc(ctx, "Trace_Parse", {"Dev": "{}", "TraceFile": tr, "Shard": k, "NShards": shards},
+                       ["SPECIFICATION Spec", "INVARIANT MachineInv", "CHECK_DEADLOCK FALSE"],
+                       name="Trace_Parse_%d_%d" % (base, k), workers=1, timeout=timeout, xmx="4g")
+    with ThreadPoolExecutor(max_workers=len(ranges)) as ex:
+        results = list(ex.map(one, range(len(ranges))))
+    drift, stats = [], {"compiles": 0, "steps": 0, "events": 0, "skipped": 0, "lexed": 0, "lsteps": 0, "ltokens": 0}
+    for res in results:
+        if res["violated"]:
+            raise Machinery("Trace_Parse: a machine invariant fails on a recorded input (spec bug):\n" + res["out"][-1500:])
+        vals = {}
+        for tag in ("PDRIFT", "PSTATS"):
+            mm = re.search(r'<<"%s", "(.*)">>' % tag, res["out"])
+            if not mm:
+                raise Machinery("Trace_Parse did not consume its lines (no %s)" % tag)
+            vals[tag] = json.loads(mm.group(1).replace('\\"', '"').replace("\\\\", "\\"))
+        drift += vals["PDRIFT"]
+        for k2 in stats:
+            stats[k2] += vals["PSTATS"][k2]
+    can = {(ln, "ptrail") for ln in meta.get("pev_canaries") or []} | {(ln, "ltoks") for ln in meta.get("tok_canaries") or []}
+    hit = {(d["line"], d["why"]) for d in drift} & can
+    ctx.canaries_in += len(can)
+    ctx.canaries_hit += len(hit)
+    if hit != can:
+        raise Machinery("Trace_Parse missed corrupted token streams / parser-step sequences at %s" % sorted(can - hit)[:5])
+    real = [d for d in drift if (d["line"], d["why"]) not in can]
+    for d in real[:10]:
+        ctx.drift.append("trace line %d: %s" % (d["line"], d["why"]))
+    ctx.log("front-end machine trace validation: %d texts lexed in %d lexer steps (%d tokens compared), %d parses in %d parser steps "
+            "(%d nud/led events compared), %d drift, canaries %d/%d" %
+            (stats["lexed"], stats["lsteps"], stats["ltokens"], stats["compiles"], stats["steps"], stats["events"], len(real), len(hit), len(can)))
+    ctx.bounds["Trace_Parse"] = dict(stats, drift=len(real))
+    return real
+
+
+def trace_api(ctx, cats, n=600, corpus=True, timeout=1800, parse=False, mutants=0):
     """Layer L3: record a trace of real API calls (compliance corpus + seeded random driver beyond the generators'
     bounds) and validate it with TLC against Trace_Api.tla. `cats`: which mismatch kinds count for this property."""
     tr = os.path.join(ctx.scratch, "trace.%d.ndjson" % len(ctx.tlc_runs))
     meta = tr + ".meta"
     cmd = [ctx.jmv, "record", "-out", tr, "-meta", meta, "-seed", str(ctx.seed), "-n", str(n), "-repo", REPO,
            "-corpus=%s" % ("true" if corpus else "false"), "-canary-every", "397"]
+    if parse:
+        cmd += ["-pev-canary-every", "97", "-mutants", str(mutants)]
     p = subprocess.run(cmd, capture_output=True, text=True, timeout=timeout)
     if p.returncode != 0:
         raise Machinery("jmv record failed: " + p.stderr[-1500:])
     m = json.load(open(meta))
+    if parse and ctx.hooks:
+        trace_parse(ctx, tr, m, m["lines"], timeout=timeout, shards=6 if ctx.tier == "quick" else 12)
     res = run_tlc(ctx, "Trace_Api", {"Dev": "{}", "TraceFile": tr}, ["SPECIFICATION Spec", "POSTCONDITION TraceAccepted", "CHECK_DEADLOCK FALSE"],
                   name="Trace_Api_%d" % len(ctx.tlc_runs), workers=1, timeout=timeout, xmx="8g")
     if "TraceAccepted" in res["out"] and "violated" in res["out"]:
@@ -378,6 +424,8 @@ def trace_api(ctx, cats, n=600, corpus=True, timeout=1800):
     ctx.evaluations += m["lines"]
     ctx.nontrivial += stats["searches"] - stats["unspec"]
     ctx.unspec += stats["unspec"] + stats["unmodelled"]
+    tokcan = set(m.get("tok_canaries") or [])
+    drift = [d for d in drift if not (d["why"] == "tokens" and d["line"] in tokcan)]
     for d in drift[:10]:
         ctx.drift.append("trace line %d: %s" % (d["line"], d["why"]))
     ncand = 0
